@@ -5,6 +5,7 @@
 //   wt     waiters separated by '-', each  <bound executor digit>:<round kinds>
 //            m  futex.wait(matching value)           x  futex.wait(non-matching value)
 //            c  futex.wait(matching) whose on_suspend callback cancels itself
+//            d  futex.wait(value read from the futex word just before)  - with value changes (op u)
 //            f  co_await Future<int>                  t  co_await child Task awaiting the future
 //            i  co_await child Task that finishes at once
 //            n  co_await Cancellable<Task<int>> (child awaits the future)
@@ -12,6 +13,7 @@
 //   cex    executor digit the child tasks (t, i, n) are bound to, 'u' = unbound (inherits / in place)
 //   prog   threads separated by '_', operations by '.'
 //            sW submit waiter W     k wake_one     a wake_all     cWR cancel round R of waiter W
+//            u  store a new (never used before) value into the futex word (atomic_value().store)
 //            vWR set the future of round R of waiter W     wG / pG see park below
 //
 // events (L1 observables): wait / susp / res / done / spurious (coroutine side), call / ret (operations),
@@ -58,6 +60,8 @@ using FNode = Futex::Node;
 using CCancellation = ::babylon::coroutine::BasicCancellable::Cancellation;
 
 constexpr uint64_t FVAL = 7;
+constexpr uint64_t FNEVER = 9999;
+
 constexpr int MAXW = 4, MAXR = 3;
 
 thread_local int tl_ticket = 0;         // ticket of the executor run this thread is inside
@@ -212,13 +216,15 @@ Task<> waiter(Ctx* c, int w) {
   const std::string kinds = c->kinds[w];
   for (int r = 0; r < (int)kinds.size(); r++) {
     char kd = kinds[(size_t)r];
-    const char* kname = (kd == 'm' || kd == 'x' || kd == 'c') ? "futex" : kd == 'f' ? "future" : kd == 'n' ? "cancel" : "task";
-    vsched::eventf(true, "\"k\":\"wait\",\"w\":%d,\"r\":%d,\"kind\":\"%s\",\"match\":%s,\"tk\":%d,\"bound\":%d,\"ib\":%s", w, r, kname, kd == 'x' ? "false" : "true", tl_ticket, c->bound[w], (kd == 'n' && c->cex < 0) ? "false" : "true");
+    bool isfx = kd == 'm' || kd == 'x' || kd == 'c' || kd == 'd';
+    const char* kname = isfx ? "futex" : kd == 'f' ? "future" : kd == 'n' ? "cancel" : "task";
+    uint64_t expv = kd == 'x' ? FNEVER : kd == 'd' ? c->futex.atomic_value().load(::std::memory_order_acquire) : FVAL;
+    vsched::eventf(true, "\"k\":\"wait\",\"w\":%d,\"r\":%d,\"kind\":\"%s\",\"exp\":%d,\"tk\":%d,\"bound\":%d,\"ib\":%s", w, r, kname, (int)expv, tl_ticket, c->bound[w], (kd == 'n' && c->cex < 0) ? "false" : "true");
     int has = 1, val = 0, want = 0;
-    if (kd == 'm' || kd == 'x' || kd == 'c') {
+    if (isfx) {
       // the awaitable is owned by the driver (never freed): await_suspend may still be running on the
       // suspending thread when another thread has already resumed this coroutine
-      auto* aw = new Futex::Awaitable(c->futex.wait(kd == 'x' ? FVAL + 1 : FVAL));
+      auto* aw = new Futex::Awaitable(c->futex.wait(expv));
       aw->on_suspend([c, w, r, kd](Futex::Cancellation&& tok) {
         c->ftok[w][r] = tok;
         vsched::eventf(true, "\"k\":\"susp\",\"w\":%d,\"r\":%d,\"slot\":%d,\"ver\":%d", w, r, (int)tok._id.value, (int)(tok._id.version & 0xffff));
@@ -328,6 +334,12 @@ void run_op(Ctx* c, const Op& op) {
     case 'v':
       set_future(c, op.w, op.r, "setval");
       break;
+    case 'u': {   // the waker's half of the protocol: change the word, then (next op) wake
+      OpScope s("setv", 0, 0);   // values only grow: the new value is known when the store has happened
+      int v = (int)c->futex.atomic_value().fetch_add(1, ::std::memory_order_seq_cst) + 1;
+      s.ret("setv", 0, 0, v);
+      break;
+    }
     case 'w':
       for (int spin = 0; !g_parked[op.w] && !g_released[op.w] && spin < 2000; spin++) ::usleep(50);
       break;
@@ -402,6 +414,7 @@ void scenario_co(const vrun::Params& p) {
   }
   c->futex.value() = FVAL;
   vsched::name_loc(&c->futex._mutex, sizeof(c->futex._mutex), "fmutex");
+  vsched::name_loc(&c->futex._value, sizeof(c->futex._value), "fvalue");
   vrun::begin();
   for (int e = 0; e < c->nex; e++) c->ex[e].start();
   {
